@@ -142,7 +142,7 @@ def run_scenario(run, e4, sc):
     if sc.get("keepalive"):
         settings["keepalive"] = sc["keepalive"]
     if wc == "gthread":
-        settings["threads"] = 4
+        settings["threads"] = sc.get("threads", 4)
     conf_extra = ""
     if sc.get("slow_prefork"):
         # widen the time the master spends forking the new pool (a pre_fork hook that does work)
@@ -449,6 +449,10 @@ def scenarios(tier, seed):
         # a HUP with a changed file while the previous reload is still forking its workers (slow pre_fork hook)
         out.append({"class": r3.choice(classes), "configs": [(2, 1), (3, 2), (r3.choice([1, 2]), 3)], "hup_delays": [0.5, r3.choice([0.4, 0.6])],
                     "clients": 4, "bind": "tcp", "kind": "hup-while-forking", "slow_prefork": 0.4})
+        # a threaded worker with fewer threads than it has clients: at the HUP requests that the worker has taken on are waiting for a
+        # free thread behind running ones; the old worker still answers them (one worker, so that they all queue in the same place)
+        out.append({"class": "gthread", "configs": [(1, 1), (r3.randint(1, 2), 2)], "hup_delays": [r3.choice([0.8, 1.1])], "clients": 6,
+                    "bind": r3.choice(["tcp", "unix"]), "kind": "gthread-queued", "threads": r3.choice([1, 2])})
         # the configuration file is named relative to the start directory (or found there by default) and sets `chdir`: one or two reloads
         r4 = rng_for(seed, "c10-relative-conf", rep)
         refs = ["gunicorn.conf.py", "./gunicorn.conf.py", "default"]
@@ -475,7 +479,7 @@ def shard(sh):
             break
         run.count("retries_after_inconclusive")
     run.case(json.dumps({k: sc.get(k) for k in ("class", "configs", "hup_delays", "bind", "kind", "pre_signals", "keepalive_clients",
-                                                 "slow_prefork", "conf_ref")}, sort_keys=True),
+                                                 "slow_prefork", "conf_ref", "threads")}, sort_keys=True),
              nontrivial=info.get("overlapping_a_hup", 0) > 0)
     run.count("scenarios")
     run.count("class/" + sc["class"])
@@ -499,7 +503,8 @@ def main(tier, seed):
                 "kind/ttin-then-hup", "long_request_across_reload_checks", "kind/two-listeners", "kind/unix-bind", "kind/double-slowboot",
                 "kind/keepalive-client", "keepalive_responses_on_reused_connection", "keepalive_connection_across_hup_checks",
                 "kind/large-pool", "reloads_of_a_large_pool_completed", "kind/hup-while-forking",
-                "hup_while_previous_reload_forks_checks", "kind/relative-conf-chdir", "relative_conf_with_chdir_reload_checks")
+                "hup_while_previous_reload_forks_checks", "kind/relative-conf-chdir", "relative_conf_with_chdir_reload_checks",
+                "kind/gthread-queued")
     shards = [{"scenario": sc, "seed": seed, "tier": tier} for sc in scenarios(tier, seed)]
     run.assumptions = [
         "for non-sync workers a connection closed with zero response bytes is the accepted-but-not-yet-read case the statement does not cover: "
